@@ -1,5 +1,6 @@
 """C10 - library-side serialisers use wire names (aliases) and lose nothing."""
 import ast
+from symcheck.env import Ticks  # noqa
 import asyncio
 import importlib
 import os
@@ -7,7 +8,7 @@ import sys
 
 from harness.sm import *  # noqa
 from harness import sm
-from harness.h_models import MODELS, fields_of, lossless, same_json  # noqa
+from harness.h_models import MODELS, fields_of, lossless, pair_order, same_name_pairs, same_json  # noqa
 
 EL = importlib.import_module("chuk_mcp.protocol.types.elicitation")
 TT = importlib.import_module("chuk_mcp.protocol.types.tools")
@@ -159,7 +160,7 @@ def _written_request(call):
 def sampling_request(text, name, leaf):
     msgs = [SAMP.SamplingMessage(role="user", content=CT.TextContent(type="text", text=text))]
     prefs = SAMP.ModelPreferences(hints=[SAMP.ModelHint(name=name)], costPriority=0.5)
-    d = _written_request(lambda r, w: SAMP.send_sampling_create_message(r, w, msgs, 7, model_preferences=prefs, system_prompt=text, metadata={"meta": {"sentinel": leaf}}, timeout=5))
+    d = _written_request(lambda r, w: SAMP.send_sampling_create_message(r, w, msgs, 7, model_preferences=prefs, system_prompt=text, metadata={"meta": {"sentinel": leaf}}, timeout=Ticks(5)))
     if d is None:
         return "nothing-written"
     p = d.get("params") or {}
@@ -176,7 +177,7 @@ def sampling_request(text, name, leaf):
 
 
 def completion_request(name, value, uri):
-    d = _written_request(lambda r, w: COMP.send_completion_complete(r, w, COMP.ResourceReference(type="ref/resource", uri=uri), COMP.ArgumentInfo(name=name, value=value), timeout=5))
+    d = _written_request(lambda r, w: COMP.send_completion_complete(r, w, COMP.ResourceReference(type="ref/resource", uri=uri), COMP.ArgumentInfo(name=name, value=value), timeout=Ticks(5)))
     if d is None:
         return "nothing-written"
     p = d.get("params") or {}
@@ -198,7 +199,7 @@ def roots_response(name, rid):
 
 
 def initialize_request(v):
-    d = _written_request(lambda r, w: INIT.send_initialize(r, w, timeout=5, supported_versions=[v]))
+    d = _written_request(lambda r, w: INIT.send_initialize(r, w, timeout=Ticks(5), supported_versions=[v]))
     if d is None:
         return "nothing-written"
     p = d.get("params") or {}
